@@ -8,4 +8,4 @@ CONSTANTS
     Tier = "quick"
 SPECIFICATION Spec
 VIEW viewVars
-INVARIANTS TypeOK C08Decision C08Bytes C08Answer C08BytesPrefix SniffBuffer
+INVARIANTS TypeOK C08Decision C08Bytes C08Answer C08BytesPrefix SniffBuffer NoStuck FnAgrees
